@@ -171,6 +171,9 @@ def evaluate_bus(prop, sc, keep=False):
     out['faults'] = {k: v for k, v in faults.items() if v}
     probes = collections.Counter()
     probes['inline_processing'] = sum(1 for lst in F.pe.values() for p in lst if p[2].startswith('inline'))
+    # an inline processing cut short by the cancellation of the handler doing it (its timeout): the path on which the
+    # F28 repair (c5c063c) raises the idle flags
+    probes['inline_processing_interrupted'] = sum(1 for lst in F.pe.values() for p in lst if p[2].startswith('inline') and p[3] and p[3][0] == 'CancelledError')
     probes['runloop_dequeued_while_lock_held'] = sum(1 for (b, e), lst in F.deq.items() for (s, m) in lst if m == 'runloop' and any(p[0] > s + 1 for p in F.pe.get((b, e), ())))
     probes['timers_due_together'] = res['multi_due']
     probes['forward_dispatch'] = sum(1 for d in F.disps if d[2].startswith('fwd:'))
